@@ -306,6 +306,97 @@ def describe(f, e, depth=0):
     return "expr:" + src(e)[:40]
 
 
+BACKEND_CLASSES = ("AbstractPathIO", "PathIO", "AsyncPathIO", "MemoryPathIO")
+
+
+def backend_facts(src_dir):
+    """pathio.py: one backend STATE per server, one backend INSTANCE per session (PathIONursery), and the instance
+    keeps nothing but what __init__ gave it: (nursery_fresh, nursery self writes, [(Class.method, attr)] written outside
+    __init__, class-level mutables)"""
+    path = Path(src_dir) / "pathio.py"
+    tree = ast.parse(path.read_text())
+    classes = {n.name: n for n in tree.body if isinstance(n, ast.ClassDef)}
+    for cn in ("PathIONursery",) + BACKEND_CLASSES:
+        if cn not in classes:
+            raise Unclassified(f"pathio.py: class {cn} not found")
+    # -- the nursery
+    call = [m for m in classes["PathIONursery"].body if isinstance(m, FN) and m.name == "__call__"]
+    if len(call) != 1 or not call[0].args.args or call[0].args.args[0].arg != "self":
+        raise Unclassified("PathIONursery.__call__ not found")
+    call = call[0]
+    made, returned, writes = [], [], []
+    for n in ast.walk(call):
+        if isinstance(n, FN) and n is not call:
+            raise Unclassified("nested function in PathIONursery.__call__")
+        if isinstance(n, ast.Assign):
+            for t in n.targets:
+                if isinstance(t, ast.Name):
+                    v = n.value
+                    fresh = (
+                        isinstance(v, ast.Call) and isinstance(v.func, ast.Attribute) and v.func.attr == "factory"
+                        and isinstance(v.func.value, ast.Name) and v.func.value.id == "self"
+                    )
+                    made.append((t.id, fresh))
+                elif isinstance(t, ast.Attribute) and isinstance(t.value, ast.Name) and t.value.id == "self":
+                    writes.append(t.attr)
+                else:
+                    raise Unclassified(f"PathIONursery.__call__: assignment to {src(t)}")
+        elif isinstance(n, (ast.AugAssign, ast.AnnAssign, ast.Delete, ast.NamedExpr, ast.Global, ast.Nonlocal)):
+            raise Unclassified(f"PathIONursery.__call__: {type(n).__name__}")
+        elif isinstance(n, ast.Call) and isinstance(n.func, ast.Name) and n.func.id in ("setattr", "delattr", "vars", "globals"):
+            raise Unclassified(f"PathIONursery.__call__: {n.func.id}()")
+        elif isinstance(n, ast.Call) and isinstance(n.func, ast.Attribute) and n.func.attr in MUTATORS:
+            raise Unclassified(f"PathIONursery.__call__: mutating call {src(n.func)}")
+        elif isinstance(n, ast.Return):
+            returned.append(n.value.id if isinstance(n.value, ast.Name) else "?" + src(n.value)[:30] if n.value is not None else "?None")
+    fresh = len(made) == 1 and made[0][1] and returned == [made[0][0]]
+    # -- the backends: attributes of the instance written outside __init__, class-level mutables
+    self_writes, class_state = [], []
+    for cn in BACKEND_CLASSES:
+        for st in classes[cn].body:
+            if isinstance(st, (ast.Assign, ast.AnnAssign)):
+                v = st.value
+                is_type = isinstance(v, ast.Call) and src(v.func) in ("collections.namedtuple", "namedtuple")
+                if v is not None and not isinstance(v, ast.Constant) and not is_type and not (
+                    isinstance(v, ast.Tuple) and all(isinstance(e, ast.Constant) for e in v.elts)
+                ):
+                    class_state.append(cn + "." + src(st.targets[0] if isinstance(st, ast.Assign) else st.target))
+            if not isinstance(st, FN) or st.name == "__init__":
+                continue
+            params = [a.arg for a in st.args.posonlyargs + st.args.args]
+            if not params or params[0] != "self":
+                continue  # staticmethod / classmethod-free module: nothing named self to write to
+
+            def walk(n, shadowed):
+                for c in ast.iter_child_nodes(n):
+                    sh = shadowed
+                    if isinstance(c, FN) or isinstance(c, ast.Lambda):
+                        a = c.args
+                        if "self" in [x.arg for x in a.posonlyargs + a.args + a.kwonlyargs]:
+                            sh = True  # another object's self (nested Lister)
+                    if not sh:
+                        targets = []
+                        if isinstance(c, ast.Assign):
+                            targets = c.targets
+                        elif isinstance(c, (ast.AugAssign, ast.AnnAssign)):
+                            targets = [c.target]
+                        elif isinstance(c, ast.Delete):
+                            targets = c.targets
+                        for t in targets:
+                            for x in ast.walk(t):
+                                if isinstance(x, ast.Attribute) and isinstance(x.value, ast.Name) and x.value.id == "self" and isinstance(x.ctx, (ast.Store, ast.Del)):
+                                    self_writes.append((cn + "." + st.name, x.attr))
+                        if isinstance(c, ast.Call) and isinstance(c.func, ast.Name) and c.func.id in ("setattr", "delattr"):
+                            if c.args and isinstance(c.args[0], ast.Name) and c.args[0].id == "self":
+                                self_writes.append((cn + "." + st.name, "<setattr>"))
+                        if isinstance(c, ast.Call) and isinstance(c.func, ast.Attribute) and c.func.attr == "__dict__":
+                            raise Unclassified(f"{cn}.{st.name}: __dict__ call")
+                    walk(c, sh)
+
+            walk(st, False)
+    return fresh, sorted(set(writes)), self_writes, class_state
+
+
 def generate(src_dir):
     path = Path(src_dir) / "server.py"
     tree = ast.parse(path.read_text())
@@ -419,12 +510,37 @@ def generate(src_dir):
                 if len(n.args) != 2:
                     raise Unclassified(f"_start_passive_server call shape in {owner.name}")
                 a0, a1 = n.args
-                own_conn = isinstance(a0, ast.Name) and a0.id == "connection"
+                own_conn = isinstance(a0, ast.Name) and a0.id == "connection" and "connection" in owner.params and "connection" not in owner.bind
                 nested = isinstance(a1, ast.Name) and a1.id in owner.children
-                takes_conn = True
                 if nested:
+                    # shape (a): a nested function of the command handler closing over the handler's own `connection`
                     takes_conn = "connection" in byname[owner.name + "." + a1.id].params
-                callbacks.append((owner.name, src(a1), own_conn and nested and not takes_conn))
+                    callbacks.append((owner.name, owner.name + "." + a1.id, own_conn and not takes_conn))
+                    continue
+                # shape (b): a local bound once to self.<helper>(connection); the helper has a parameter `connection` (never
+                # rebound), one nested function (not taking `connection`) and returns exactly that function
+                qual, ok = src(a1), False
+                vals = owner.bind.get(a1.id, []) if isinstance(a1, ast.Name) else []
+                if len(vals) == 1 and isinstance(vals[0], ast.Call):
+                    c = vals[0]
+                    fnx = c.func
+                    helper = None
+                    if isinstance(fnx, ast.Attribute) and isinstance(fnx.value, ast.Name) and fnx.value.id in ("self", "cls"):
+                        helper = byname.get(fnx.attr)
+                    if (
+                        helper is not None and len(c.args) == 1 and not c.keywords
+                        and isinstance(c.args[0], ast.Name) and c.args[0].id == "connection"
+                        and "connection" in helper.params and "connection" not in helper.bind and len(helper.children) == 1
+                    ):
+                        inner = byname[helper.name + "." + helper.children[0]]
+                        rets = [r for r in helper.own() if isinstance(r, ast.Return)]
+                        ok = (
+                            "connection" not in inner.params and bool(rets)
+                            and all(isinstance(r.value, ast.Name) and r.value.id == helper.children[0] for r in rets)
+                            and helper.children[0] not in helper.bind
+                        )
+                        qual = inner.name
+                callbacks.append((owner.name, qual, own_conn and ok))
     sp = byname.get("_start_passive_server")
     passes = False
     if sp is not None and len(sp.params) == 3:
@@ -454,4 +570,10 @@ def generate(src_dir):
     lines.append("Definition iso_passive_callbacks : list (string * string * bool) := [" + "; ".join(
         f"({S(o)}, {S(c)}, {emit.boolean(b)})" for o, c, b in callbacks) + "].\n")
     lines.append("Definition iso_start_passive_passes_callback : bool := " + emit.boolean(passes) + ".\n")
+    nfresh, nwrites, bwrites, bclass = backend_facts(src_dir)
+    lines.append("(* pathio.py: PathIONursery and the shipped backends *)")
+    lines.append("Definition iso_nursery_fresh : bool := " + emit.boolean(nfresh) + ".\n")
+    lines.append("Definition iso_nursery_self_writes : list string := " + slist(nwrites) + ".\n")
+    lines.append("Definition iso_backend_self_writes : list (string * string) := [" + "; ".join(f"({S(a)}, {S(b)})" for a, b in bwrites) + "].\n")
+    lines.append("Definition iso_backend_class_state : list string := " + slist(bclass) + ".\n")
     return "\n".join(lines)
